@@ -73,8 +73,8 @@ PROPS = {
     "C01": dict(
         # bgq_run: the writer loop leaves only through shut_down (final drain): an entry appended before the last handle went away is
         # still handed to the stream
-        verus=[("bgq", {}, ["push", "consume", "report_validation_error", "drain_until_deadline"]), ("bgq_run", {}, ["run"]), ("bgq_build", {})],
-        technique="Verus function contracts on the extracted real Inner::push / Receiver::consume / drain_until_deadline over a ghost log of the stream",
+        verus=[("bgq", {}, ["push", "BackgroundQueue::append", "consume", "report_validation_error", "drain_until_deadline"]), ("bgq_run", {}, ["run"]), ("bgq_build", {}), ("coresink", {})],
+        technique="Verus function contracts on the extracted real Inner::push / Receiver::consume / drain_until_deadline over a ghost log of the stream; on the sink plumbing in front of the queue (AppendOnDrop, the AnyEntrySink blanket impl, BoxEntrySink::append_any)",
         level_text="Deductive proof (Verus/z3) of the writer side of the queue: every popped entry is handed to the stream exactly once, in pop order, for every stream result (Ok/Validation/Io), "
                    "nothing but the in-band error report is added, no popped entry is dropped on the deadline path, and push hands every entry to the queue. "
                    "Producer/consumer interleavings are crossbeam's (assumed linearizable FIFO).",
@@ -83,7 +83,7 @@ PROPS = {
         explanation="sequential core of the background queue against a ghost stream log",
         assumptions=["crossbeam ArrayQueue is a linearizable FIFO", "park/unpark only affect latency: park_deadline returns no later than next_flush",
                      "Receiver::run wiring (drain -> wakers -> park) is read, not proved", "BoxEntrySink::append_any forwards entry.boxed() once (trait-object dispatch, not extracted)"],
-        unreached=["the spawned thread actually running Receiver::run (thread::Builder::spawn_scoped stand-in)", "BoxEntrySink / BoxEntry forwarding (see C15)"],
+        unreached=["the spawned thread actually running Receiver::run (thread::Builder::spawn_scoped stand-in)", "what entry.boxed() reports (BoxEntry bridge: C15)"],
     ),
     "C05": dict(
         verus=[("bgq", {}, ["shut_down", "flush_stream", "drain_until_deadline", "consume", "drop", "forget"]), ("bgq_run", {}), ("bgq_build", {})],
@@ -97,7 +97,7 @@ PROPS = {
         unreached=["whether Arc::get_mut can ever succeed after forget() (run keeps its own clone: read, not decided)", "the detach function a global sink stores in its AttachHandle (that it drops the join handle; AttachHandle::drop itself: unit globalguards)", "entries appended after shutdown are discarded"],
     ),
     "C09": dict(
-        verus=[("bgq", {}, ["push"]), ("bgq_build", {})],
+        verus=[("bgq", {}, ["push", "BackgroundQueue::append"]), ("bgq_build", {})],
         technique="Verus function contract on the extracted real Inner::push (effect-witness predicates on the crossbeam calls)",
         level_text="Deductive proof (Verus/z3) that push is loop-free and lock-free, hands the entry to force_push on every path (never drops or returns it itself), "
                    "reports one overflow to the recorder when force_push displaced an entry, and unparks the writer. That force_push displaces the OLDEST entry and keeps the rest in order is crossbeam's contract (assumed).",
